@@ -697,6 +697,7 @@ def rule_count(repo: Repo, rep: Report) -> int:
             elif unparse(bound[p_]) not in accepted:
                 bad.append(f"`{p_}` receives `{unparse(bound[p_])}` instead of the demodulator's own `{accepted[0]}`")
         rep.check(not bad, "COUNT", init, f"{cname}: self.modulator = {unparse(call)}", "same order / labelling / normalisation as the demodulator was given", "; ".join(bad) + ": the reference tables are those of a different configuration", node=a[0])
+    n += rule_alias_option(repo, rep)
     # fixed-parameter aliases forward the same constants on both sides
     dp = repo.module(f"{MD}/dpsk.py")
     for base in ("DBPSK", "DQPSK"):
@@ -711,6 +712,36 @@ def rule_count(repo: Repo, rep: Report) -> int:
         n += 1
         rep.check(args[0] is not None and args[0] == args[1], "COUNT", f"{MD}/dpsk.py::{base}", f"{base}Modulator{args[0]} / {base}Demodulator{args[1]}", "modulator and demodulator fix the same (order, labelling)", "the two halves of the pair are built with different (order, labelling)")
     return n
+
+
+def rule_alias_option(repo: Repo, rep: Report, rule: str = "COUNT") -> int:
+    """DPSKDemodulator accepts the labelling under two names; the effective option is `gray_coded` when it is given
+    (True OR False) and `gray_coding` otherwise - evaluated on all six combinations."""
+    ci = repo.cls(f"{MD}/dpsk.py", "DPSKDemodulator")
+    init = repo.method(ci, "__init__")
+    a = [s_ for s_ in ast.walk(init.node) if isinstance(s_, ast.Assign) and attr_chain(s_.targets[0]) == "self.gray_coding"]
+    if len(a) != 1:
+        rep.undecided(rule, init, "DPSKDemodulator: self.gray_coding", f"{len(a)} assignments")
+        return 1
+    bad = None
+    try:
+        for gc in (None, True, False):
+            for gg in (True, False):
+                got = Folder({"gray_coded": gc, "gray_coding": gg}).fold(a[0].value)
+                want = gc if gc is not None else gg
+                if bool(got) != want or isinstance(got, list):
+                    bad = (gc, gg, got, want)
+                    break
+            if bad:
+                break
+    except Unfoldable as exc:
+        rep.undecided(rule, init, f"DPSKDemodulator: {unparse(a[0])}", f"not evaluable ({exc})", node=a[0])
+        return 1
+    if bad:
+        rep.violation(rule, init, f"DPSKDemodulator: {unparse(a[0])}", f"for gray_coded={bad[0]}, gray_coding={bad[1]} the effective labelling is {bad[2]} instead of {bad[3]}: an explicit gray_coded=False is ignored and the reference modulator (constellation rotation and label table) is that of the other labelling - hard decisions and LLRs are taken against the wrong table", node=a[0])
+    else:
+        rep.ok(rule, init, f"DPSKDemodulator: {unparse(a[0])}", "the alias takes precedence whenever it is given (checked on the six combinations)", node=a[0])
+    return 1
 
 
 # ---------------------------------------------------------------------------
